@@ -248,7 +248,8 @@ def ob_tags(chk, P):
                             # chunks written are decided by the children's write choices: every chunk in the text must be from this body
                             if txt.count("('chunk'") != len(written): bad = f'captured text has foreign chunks: {txt}'
                 if bad:
-                    sc = {'kind': 'template', 'template': "{% capture v %}a{{x}}b{% endcapture %}[{{v}}]{% capture w %}{% capture v %}in{% endcapture %}out{% endcapture %}[{{v}}|{{w}}]", 'globals': {'x': 1}, '_expect': '[a1b][in|out]'}
+                    sc = {'kind': 'template', 'template': "{% capture v %}a{{x}}b{% endcapture %}[{{v}}]{% capture w %}{% capture v %}in{% endcapture %}out{% endcapture %}[{{v}}|{{w}}]{% capture v %}{% if false %}never{% endif %}{% endcapture %}[{{v}}]",
+                          'globals': {'x': 1}, '_expect': '[a1b][in|out][]'}
                     ob.violation('Capture::render_to', bad, {}, sc, confirm_expect(sc))
         # ---- increment / decrement
         for ty, delta_print, delta_store in (('Increment', 0, 1), ('Decrement', -1, -1)):
@@ -266,7 +267,10 @@ def ob_tags(chk, P):
                     log = sink.log(s2)
                     cur = z3.BitVec('P_idx_n', 64) if present else z3.BitVecVal(0, 64)
                     sets = [c for c in pc if c[0] == 'set_index']; gl = [c for c in pc if c[0] == 'set_global']
+                    other = [c for c in pc if c[0] not in ('set_index', 'get_index')]
                     if gl: bad = f'{ty} touched the global layer: {gl}'
+                    elif other: bad = f'{ty} must read and write the counter layer only (get_index/set_index), but also called {other}'
+                    elif [c for c in pc if c[0] == 'get_index'] != [('get_index', 'n')]: bad = f'{ty} must read its counter exactly once: {pc}'
                     elif len(sets) != 1 or sets[0][1] != 'n': bad = f'{ty} must store through set_index(n) exactly once: {pc}'
                     elif len(log) != 1 or log[0][0] != 'ok': bad = f'{ty} must write exactly once: {log}'
                     else:
@@ -278,7 +282,8 @@ def ob_tags(chk, P):
                         if not mentions(repr(printed), pexp): bad = f'{ty} printed {printed}, expected {pexp}'
                         elif not mentions(stored, sexp): bad = f'{ty} stored {stored}, expected {sexp}'
                 if bad:
-                    sc = {'kind': 'template', 'template': '{% increment n %},{% increment n %},{% decrement n %},{% decrement m %},{% decrement m %},{% increment m %}', 'globals': {}, '_expect': '0,1,1,-1,-2,-2'}
+                    sc = {'kind': 'template', 'template': '{% increment n %},{% increment n %},{% decrement n %},{% decrement m %},{% decrement m %},{% increment m %}|{% assign v = 5 %}{% decrement v %},{% increment w %},{{v}},{{w}}',
+                          'globals': {'w': 9}, '_expect': '0,1,1,-1,-2,-2|-1,0,5,9'}
                     ob.violation(f'{ty}::render_to', bad, {}, sc, confirm_expect(sc))
         ob.absorb(ex)
 
